@@ -1,4 +1,5 @@
 import SSVerif.Proofs.S3file
+import SSVerif.Proofs.BinMdef
 import SSVerif.Model.S3fileLedger
 /-!
 # C17 — Damaged acoustic-model files are rejected without memory errors
@@ -27,6 +28,8 @@ inductive Plan where
   | lda (streamLen : Nat)
   | sendump (gFeat gDensity mdefSen : Nat)
   | mixw (gFeat gDensity : Nat)
+  /-- `bin_mdef_read_s3file` -/
+  | mdef
 
 /-- element sizes are positive (the C callers pass the constants 1, 2, 4) -/
 def Plan.Admissible : Plan → Prop
@@ -42,6 +45,7 @@ def Plan.run (f : File) : Plan → Res Unit
   | .lda sl => do let _ ← ldaPlan f sl; pure ()
   | .sendump a b c => do let _ ← sendumpPlan f a b c; pure ()
   | .mixw a b => do let _ ← mixwPlan f a b; pure ()
+  | .mdef => do let _ ← mdefPlan f; pure ()
 
 theorem Plan.run_sat (f : File) (p : Plan) (hp : p.Admissible) : (p.run f).Sat fun _ => True := by
   cases p with
@@ -52,6 +56,7 @@ theorem Plan.run_sat (f : File) (p : Plan) (hp : p.Admissible) : (p.run f).Sat f
   | lda sl => exact Sat.bind (ldaPlan_sat f sl) fun _ _ => trivial
   | sendump a b c => exact Sat.bind (sendumpPlan_sat f a b c) fun _ _ => trivial
   | mixw a b => exact Sat.bind (mixwPlan_sat f a b) fun _ _ => trivial
+  | mdef => exact Sat.bind (mdefPlan_sat f) fun _ _ => trivial
 
 /-- **C17, reads stay inside the file.**  For every file `f` (any length, any bytes) and every
 plan, no step reads a byte at an offset `≥ f.size`: the outcome `oob` is unreachable.  (Every
@@ -160,6 +165,39 @@ example : (match runOps [.hdr, .get1d 4, .verify] (S.init (File.ofList (exArr.se
 /-- `s3file_get` past the end returns the elements that are there (`min(n, available/el_sz)`) -/
 example : (match get (S.init (File.ofList [1, 0, 2, 0, 3])) 2 5 with
     | .ok (s, c) => c == 2 && s.ptr == 4 | _ => false) = true := by decide +kernel
+
+/-- **C17, the binary model definition.**  `bin_mdef_read_s3file` (the repaired reader) on every
+file: it returns its error value or completes, and when it completes
+* the counts satisfy the limits (`0 < n_ciphone ≤ 255`, `n_ciphone ≤ n_phone`, `0 < n_sen ≤ 65535`,
+  `n_ci_sen ≤ n_sen`, `0 < n_sseq ≤ 65535`, `n_ci_sen = n_ciphone * n_emit_state` when homogeneous),
+* there are `n_ciphone` phone names, each terminated inside the file,
+* the phone records `[phoneOff, phoneOff + 12*n_phone)`, the sequence area
+  `[sseqOff, sseqOff + 2*sseq_size)` (and the `n_sseq` length bytes behind it for heterogeneous
+  topologies) lie inside the file, `sseq_size = n_sseq * n_emit_state` resp. `= Σ lengths`,
+* `cd2cisen` and `sen2cimap` have exactly `n_sen` cells.
+No step reads outside the file (`oob`) — not the name walk, the in-place swaps, the phone records,
+the senone sequences (including the cell `sseq[phone[ci].ssid][j]` with `j` up to the length of the
+CI phone's sequence), the `strcmp`s of the silence-phone search — and no store into `ciname`,
+`cd2cisen`, `sen2cimap` or load of `sseq_len` is at or past the allocated/validated count (`idx`).
+The loop invariant is that every phone record before the current one has a validated `ssid`. -/
+theorem C17_mdef_decides (f : File) :
+    ((∃ site, mdefPlan f = .reject site) ∨ ∃ o, mdefPlan f = .ok o ∧ o.Consistent f) ∧
+    (∀ i, mdefPlan f ≠ .oob i) ∧ (∀ i n, mdefPlan f ≠ .idx i n) :=
+  ⟨Sat.decides (mdefPlan_sat f), fun i => Sat.not_oob (mdefPlan_sat f) i,
+   fun i n => Sat.not_idx (mdefPlan_sat f) i n⟩
+
+/-- a 5-phone, 10-senone binary mdef (3 CI phones `A`, `B`, `SIL`, 2 states each) … -/
+def exMdef : List UInt8 := [66, 77, 68, 70, 1, 0, 0, 0, 12, 0, 0, 0, 98, 105, 110, 32, 109, 100, 101, 102, 0, 0, 0, 0, 3, 0, 0, 0, 5, 0, 0, 0, 2, 0, 0, 0, 6, 0, 0, 0, 10, 0, 0, 0, 3, 0, 0, 0, 5, 0, 0, 0, 3, 0, 0, 0, 4, 0, 0, 0, 2, 0, 0, 0, 65, 0, 66, 0, 83, 73, 76, 0, 0, 0, 1, 0, 1, 0, 0, 0, 1, 0, 1, 0, 2, 0, 0, 0, 2, 0, 1, 0, 3, 0, 0, 0, 3, 0, 1, 0, 4, 0, 0, 0, 0, 0, 0, 0, 0, 0, 0, 0, 1, 0, 0, 0, 1, 0, 0, 0, 1, 0, 0, 0, 1, 0, 0, 0, 2, 0, 0, 0, 2, 0, 0, 0, 1, 0, 0, 0, 3, 0, 0, 0, 0, 0, 0, 0, 3, 0, 1, 2, 4, 0, 0, 0, 1, 0, 0, 0, 0, 1, 2, 0, 10, 0, 0, 0, 0, 0, 1, 0, 2, 0, 3, 0, 4, 0, 5, 0, 6, 0, 7, 0, 8, 0, 9, 0]
+example : (match mdefPlan (File.ofList exMdef) with
+    | .ok o => o.sil == 2 && o.hdr.nSen == 10 && o.sen2cimap.toList == [0, 0, 1, 1, 2, 2, 0, 0, 1, 1]
+    | _ => false) = true := by decide +kernel
+/-- … every truncation of which is rejected -/
+example : ((List.range 188).all fun t =>
+    match mdefPlan (File.ofList (exMdef.take t)) with | .reject _ => true | _ => false) = true := by decide +kernel
+/-- an other-endian file with a heterogeneous topology (sequence lengths 1, 2, 1, 2, 1) -/
+example : (match mdefPlan (File.ofList [70, 68, 77, 66, 0, 0, 0, 1, 0, 0, 0, 12, 98, 105, 110, 32, 109, 100, 101, 102, 0, 0, 0, 0, 0, 0, 0, 3, 0, 0, 0, 5, 0, 0, 0, 0, 0, 0, 0, 4, 0, 0, 0, 7, 0, 0, 0, 3, 0, 0, 0, 5, 0, 0, 0, 3, 0, 0, 0, 4, 0, 0, 0, 2, 65, 0, 66, 0, 83, 73, 76, 0, 0, 0, 0, 1, 0, 0, 0, 1, 0, 1, 0, 1, 0, 0, 0, 2, 0, 2, 0, 1, 0, 0, 0, 3, 0, 3, 0, 1, 0, 0, 0, 4, 0, 0, 0, 0, 0, 0, 0, 0, 1, 0, 0, 0, 0, 0, 0, 1, 0, 0, 0, 1, 1, 0, 0, 0, 0, 0, 0, 2, 0, 0, 0, 2, 1, 0, 0, 0, 0, 0, 0, 3, 0, 0, 0, 0, 3, 0, 1, 2, 0, 0, 0, 4, 0, 0, 0, 1, 0, 1, 2, 0, 0, 0, 0, 7, 0, 0, 0, 1, 0, 2, 0, 3, 0, 4, 0, 5, 0, 6, 1, 2, 1, 2, 1]) with
+    | .ok o => o.hdr.swap && o.hdr.nEmit == 0 && o.lay.sseqSize == 7 && o.cd2cisen.size == 7
+    | _ => false) = true := by decide +kernel
 
 /-! ## Error paths release the partial object exactly once -/
 
